@@ -29,29 +29,52 @@ def plan(ctx):
     return shards
 
 
-def lnotab_mid_instruction(code):
-    """<=3.9: does some lnotab entry land on a non-first code unit of an instruction?"""
-    import hcommon as H
-    starts = set(f["start"] for f in H.folded_instructions(code))
+def _lnotab_entries(lt):
+    out = []
     addr = 0
-    lt = code.co_lnotab
-    hits = 0
     for i in range(0, len(lt), 2):
         addr += lt[i]
-        if addr < len(code.co_code) and addr not in starts:
-            hits += 1
-    return hits
+        d = lt[i + 1]
+        out.append((addr, d - 256 if d > 127 else d))
+    return out
+
+
+def lnotab_mid_instruction(code):
+    """<=3.9: cumulative addresses of lnotab entries that land on a code-unit boundary strictly
+    inside an EXTENDED_ARG-prefixed instruction, and the start of the instruction that follows."""
+    import hcommon as H
+    inside = {}
+    for f in H.folded_instructions(code):
+        if f["nunits"] > 1:
+            for o in range(f["start"] + 2, f["offset"] + 2, 2):
+                inside[o] = f["offset"] + 2
+    mids, nexts = set(), set()
+    for addr, _d in _lnotab_entries(code.co_lnotab):
+        if addr in inside:
+            mids.add(addr)
+            nexts.add(inside[addr])
+    return mids, nexts
 
 
 def classify(pairs):
-    """Mechanism key for a strict difference, or None."""
+    """Mechanism key for a strict difference, or None.
+
+    F-C01a: only co_lnotab differs, the original table has entries landing strictly inside an
+    EXTENDED_ARG-prefixed instruction, every entry at any other address is reproduced unchanged and
+    in order, and CPython assigns every instruction start the same line in both code objects."""
     import hcommon as H
     if H.IS310 or not pairs:
         return None
     for path, a, b, attrs in pairs:
         if attrs != ["co_lnotab"]:
             return None
-        if not lnotab_mid_instruction(a):
+        mids, nexts = lnotab_mid_instruction(a)
+        if not mids:
+            return None
+        affected = mids | nexts
+        ea = [e for e in _lnotab_entries(a.co_lnotab) if e[0] not in affected]
+        eb = [e for e in _lnotab_entries(b.co_lnotab) if e[0] not in affected]
+        if ea != eb:
             return None
         fa = H.folded_instructions(a)
         if [H.addr2line(a, f["start"]) for f in fa] != [H.addr2line(b, f["start"]) for f in fa]:
